@@ -115,8 +115,8 @@ class C18(Prop):
     pid = "C18"
     theorems = ["C18_known_kept", "C18_refines_level_rule", "C18_leader_is_ancestor_or_self",
                 "C18_rule_stays_iff_frequent", "C18_rule_bottom_value", "C18_rare_group_merged_further_up",
-                "C18_unknown_raise", "C18_unknown_drop_single", "C18_unknown_drop_refuted",
-                "C18_transform_is_leader", "C18_checker_sound"]
+                "C18_unknown_raise", "C18_unknown_drop",
+                "C18_transform_is_leader"]
     rule = ("random forests given bottom-up as 2-4 chained_orders dicts with uneven fan-out (1-5), "
             "group leaders listed or not in their own group, never-observed leaves, observed group "
             "labels, roots left ungrouped; training column of 30-400 rows with counts placed exactly "
@@ -141,6 +141,13 @@ class C18(Prop):
         cs.append(self.mk([L0, L1], col, 0.2, False))
         cs.append(self.mk([L0, L1], col + ["u1"], 0.2, True))
         cs.append(self.mk([L0, L1], col + ["u1"], 0.2, False))
+        cs.append(self.mk([L0, L1], ["u1", "u2"] + col + ["u3"], 0.2, True))
+        # minimised inputs of earlier findings (always run first)
+        import glob
+        import json
+        import os
+        for fn in sorted(glob.glob(os.path.join(C.VERIF, "corpus", "findings", "C18-*.json"))):
+            cs.append(json.load(open(fn))["case"])
         return cs
 
     def mk(self, levels, col, mf, drop, meta=None):
